@@ -60,9 +60,9 @@ Fixpoint insert_re (x : N * N * rentry) (l : list (N * N * rentry)) :=
       if (h' <? h) || ((h' =? h) && (r' <? r)) then y :: insert_re x t else x :: l
   end.
 
-Definition tr_rounds (rs : list (N * N * rentry)) : tr :=
+Definition tr_rounds (rs : list (N * N * rentry)) (replayed : list hdr) : tr :=
   TL (map (fun x => let '(h, r, e) := x in
-        TL [TN h; TN r; TL (map TB (sort_b (map (fun p => hd_hash (ph_hdr p)) (re_phs e))));
+        TL [TN h; TN r; TL (map TB (sort_b (map (fun p => hd_hash (ph_hdr p)) (round_phs rs replayed h r))));
             tr_opt_coll (re_pv e); tr_opt_coll (re_pc e)]) (fold_right insert_re [] rs)).
 
 Fixpoint insert_hd (x : N * (hdr * cproof)) (l : list (N * (hdr * cproof))) :=
@@ -79,7 +79,7 @@ Definition tr_hdrs (l : list (N * (hdr * cproof))) : tr :=
 
 Definition observe (s : kstate) : tr :=
   let '(a, b, c, d) := st_nhr s in
-  TL [tr_view (k_vot s); tr_view (k_com s); TL [TN a; TN b; TN c; TN d]; tr_hdrs (st_hdrs s); tr_rounds (st_rounds s)].
+  TL [tr_view (k_vot s); tr_view (k_com s); TL [TN a; TN b; TN c; TN d]; tr_hdrs (st_hdrs s); tr_rounds (st_rounds s) (st_replayed s)].
 
 Definition tr_vview (v : view) : tr := TL [TN (v_ver v); tr_view v].
 Definition tr_oview (o : option view) : tr := match o with Some v => TL [tr_vview v] | None => TL [] end.
